@@ -1,7 +1,7 @@
 /*
  * vtrace — syscall-level crash / pause supervisor (ptrace, x86_64 Linux).
  *
- *   vtrace --root R [--root R2 ...] [--log FILE] [mode] -- cmd args...
+ *   vtrace --root R [--root R2 ...] [--log FILE] [--with-stat] [mode] -- cmd args...
  *
  * Runs `cmd` and every thread / process it creates under ptrace and numbers
  * the *relevant* system calls 1,2,3,... in ONE global order (the order of
@@ -14,6 +14,11 @@
  * truncate/ftruncate, fsync/fdatasync, close — when the path (or the path the
  * fd was opened on / bound to) lies under one of the --root prefixes — plus
  * bind/connect on AF_UNIX paths under a root and listen on an fd bound to one.
+ *
+ * --with-stat (default off: numbering without it is unchanged): path-taking calls of the stat
+ * family — stat, lstat, newfstatat, statx, access, faccessat, faccessat2, readlink, readlinkat —
+ * on a (non-empty) path under a root are relevant too.  They modify nothing; they give pause /
+ * kill points inside stretches in which the tracee only inspects the file system.
  *
  * Modes (at most one):
  *   (none)                          run to completion
@@ -78,6 +83,12 @@
 #ifndef SYS_clone3
 #define SYS_clone3 435
 #endif
+#ifndef SYS_statx
+#define SYS_statx 332
+#endif
+#ifndef SYS_faccessat2
+#define SYS_faccessat2 439
+#endif
 
 #define EX_KILLED 99
 #define EX_NOTEAR 95
@@ -93,6 +104,7 @@ static long kill_at, pause_at;
 static long tear = -1;
 static const char *ready_file, *resume_file;
 static int verbose;
+static int with_stat;
 
 static void die(int code, const char *fmt, ...)
 {
@@ -635,6 +647,38 @@ static int classify(struct thr *t, char *text, size_t cap, unsigned long long *w
             snprintf(text, cap, "%s %d->%s", name, (int)a[0], e1);
         return 1;
     }
+    case SYS_stat:
+    case SYS_lstat:
+    case SYS_access:
+    case SYS_readlink:
+    case SYS_newfstatat:
+    case SYS_statx:
+    case SYS_faccessat:
+    case SYS_faccessat2:
+    case SYS_readlinkat: {
+        if (!with_stat)
+            return 0;
+        int dirfd = AT_FDCWD;
+        unsigned long long uptr = a[0];
+        const char *name = t->nr == SYS_stat ? "stat" : t->nr == SYS_lstat ? "lstat" :
+                           t->nr == SYS_access ? "access" : t->nr == SYS_readlink ? "readlink" :
+                           t->nr == SYS_newfstatat ? "newfstatat" : t->nr == SYS_statx ? "statx" :
+                           t->nr == SYS_faccessat ? "faccessat" : t->nr == SYS_faccessat2 ? "faccessat2" : "readlinkat";
+        if (t->nr == SYS_newfstatat || t->nr == SYS_statx || t->nr == SYS_faccessat ||
+            t->nr == SYS_faccessat2 || t->nr == SYS_readlinkat) {
+            dirfd = (int)a[0];
+            uptr = a[1];
+        }
+        /* an empty path (AT_EMPTY_PATH) is a call on the descriptor itself, not on a path */
+        char c0 = 0;
+        if (!uptr || read_mem(t->tid, uptr, &c0, 1) < 0 || c0 == 0)
+            return 0;
+        if (resolve(t, dirfd, uptr, p) < 0 || !under_root(p))
+            return 0;
+        esc(p, e1, sizeof e1);
+        snprintf(text, cap, "%s %s", name, e1);
+        return 1;
+    }
     case SYS_bind:
     case SYS_connect: {
         struct sockaddr_un sa;
@@ -854,8 +898,10 @@ int main(int argc, char **argv)
             resume_file = argv[++i];
         } else if (!strcmp(o, "--verbose")) {
             verbose = 1;
+        } else if (!strcmp(o, "--with-stat")) {
+            with_stat = 1;
         } else {
-            die(EX_USAGE, "unknown option %s\nusage: vtrace --root R [--root R2] [--log FILE] [--kill-at K [--tear M] | --pause-at K --ready F --resume G] -- cmd args...", o);
+            die(EX_USAGE, "unknown option %s\nusage: vtrace --root R [--root R2] [--log FILE] [--with-stat] [--kill-at K [--tear M] | --pause-at K --ready F --resume G] -- cmd args...", o);
         }
     }
     if (i >= argc)
